@@ -1550,10 +1550,13 @@ class Interp:
                 return Iter(o_, 0 if name in ("begin", "cbegin") else len(o_), 1)
             if hasattr(o_, "fill_all"):
                 return WholeRange(o_, name in ("end", "cend"))
-        if e.get("obj") is not None and name == "size" and (cls or "").startswith("xt::"):
+        if e.get("obj") is not None and name in ("size", "empty", "count") and \
+                ((cls or "").startswith("xt::") or (cls or "") in ("std::unordered_set", "std::set")):
             o_ = self.rv(OBJ())
             if isinstance(o_, PyVec):
-                return len(o_)
+                if name == "count":
+                    return 1 if V(0) in o_ else 0
+                return len(o_) if name == "size" else len(o_) == 0
         if cls in ("std::shared_ptr", "std::__shared_ptr", "std::unique_ptr", "std::__shared_ptr_access"):
             obj = OBJ()
             if name in ("operator->", "operator*", "get"):
